@@ -822,7 +822,7 @@ func permutationsV3(r *ev.Run, G *gprops, gs *gstats, decoders []int, thorough b
 	c1 := baseVec(3, firstCode)
 	bt := tokensOf(3, 0, c1)
 	tt := []string{"E:F", "RL:W", "RC:R"}
-	et := []string{"CR:H", "IR:L", "AR:M", "MAV:P", "MAC:H", "MPR:N", "MUI:R", "MS:C", "MC:N", "MI:L", "MA:H", "MS:X", "MPR:X", "MAV:X", "MC:X", "CR:X", "MS:U"}
+	et := []string{"CR:H", "IR:L", "AR:M", "MAV:P", "MAC:H", "MPR:N", "MUI:R", "MS:C", "MC:N", "MI:L", "MA:H", "MS:X", "MPR:X", "MAV:X", "MC:X", "CR:X", "MS:U", "MPR:L", "MPR:H"}
 	var strs []string
 	permute(append([]string{}, tt...), func(p []string) {
 		for a := 0; a <= len(bt); a++ {
@@ -859,6 +859,19 @@ func permutationsV3(r *ev.Run, G *gprops, gs *gstats, decoders []int, thorough b
 			strs = append(strs, "CVSS:3.0/"+strings.Join(append(append([]string{}, bt...), cur...), "/"))
 			strs = append(strs, "CVSS:3.0/"+strings.Join(append(append([]string{}, cur...), bt...), "/"))
 			strs = append(strs, "CVSS:3.0/"+strings.Join(append(append(append([]string{}, bt[:4]...), cur...), bt[4:]...), "/"))
+			// the same placements around base vectors with changed scope and privileges (what an
+			// optional metric falls back to is then not yet known when it is read), other version
+			if len(cur) <= 2 || thorough {
+				for ai, a := range assigns[2:] {
+					ob := tokensOf(3, 0, a)
+					label := "CVSS:" + spec.V3Versions[ai%2] + "/"
+					strs = append(strs, label+strings.Join(append(append([]string{}, cur...), ob...), "/"))
+					strs = append(strs, label+strings.Join(append(append(append([]string{}, ob[:4]...), cur...), ob[4:]...), "/"))
+					if len(cur) == 2 {
+						strs = append(strs, label+strings.Join(append(append(append([]string{}, cur[:1]...), ob...), cur[1:]...), "/"))
+					}
+				}
+			}
 		}
 		if len(cur) == sel {
 			return
